@@ -93,7 +93,7 @@ def observe_wrappers(b):
     return out
 
 
-def run_project(d, name, files, mode="none", project="src", extra_cfg=None, keep=False):
+def run_project(d, name, files, mode="none", project="src", extra_cfg=None, keep=False, expect_parse=True):
     root = os.path.join(d, name)
     shutil.rmtree(root, ignore_errors=True)
     rustgen.write_project(root, files)
@@ -105,6 +105,9 @@ def run_project(d, name, files, mode="none", project="src", extra_cfg=None, keep
         res = runner.generate(root, project=project, mode=mode)
     texts = runner.read_outputs(os.path.join(root, "out"))
     b = observe.Bindings(texts=texts) if texts else None
+    if expect_parse and "Failed to parse" in res.err:
+        # a case project that the analyser cannot parse would make every check built on it vacuous
+        raise C.ToolError("case project %s contains a file syn cannot parse (concretiser defect):\n%s" % (name, res.err[-800:]))
     if not keep:
         shutil.rmtree(root, ignore_errors=True)
     return b, res, texts
